@@ -228,7 +228,7 @@ func checkC18(c CaseC18, x *hx.Ctx) (fail *hx.Failure) {
 		return hx.Failf("write-mutates", "Write modified the caller's slice")
 	}
 	if c.Extra != 0 {
-		if n != 0 || err != gots.ErrInvalidPacketLength {
+		if n != 0 || !errors.Is(err, gots.ErrInvalidPacketLength) {
 			return hx.Failf("write-invalid-length", "Write of %d bytes (not a multiple of 188) returned (%d, %v), want (0, ErrInvalidPacketLength)", total, n, err)
 		}
 		if len(sink.got) != 0 {
@@ -245,7 +245,7 @@ func checkC18(c CaseC18, x *hx.Ctx) (fail *hx.Failure) {
 		if f := c18Delivered(sink, data, c.FailAt+1, "write-fail"); f != nil {
 			return f
 		}
-		if err != errC18Writer {
+		if !errors.Is(err, errC18Writer) {
 			return hx.Failf("write-error", "packet write %d failed but Write returned error %v", c.FailAt, err)
 		}
 	}
@@ -337,22 +337,25 @@ func checkC18(c CaseC18, x *hx.Ctx) (fail *hx.Failure) {
 	bothAtOnce := c.ReadFail >= 0 && c.ErrWithData && c.ReadFail > 0 && c.ReadFail%188 == 0 && c.FailAt == c.ReadFail/188-1
 	switch {
 	case bothAtOnce:
-		if rerr != errC18Writer && rerr != c18ReaderErr(c.ErrKind) {
+		if !errors.Is(rerr, errC18Writer) && !errors.Is(rerr, c18ReaderErr(c.ErrKind)) {
 			return hx.Failf("readfrom-error", "packet write %d failed and the reader failed with the same read, but ReadFrom returned error %v", c.FailAt, rerr)
 		}
 	case c.FailAt >= 0 && c.FailAt < complete:
-		if rerr != errC18Writer {
+		if !errors.Is(rerr, errC18Writer) {
 			return hx.Failf("readfrom-writer-error", "packet write %d failed but ReadFrom returned error %v", c.FailAt, rerr)
 		}
 	case c.ReadFail >= 0:
-		if rerr != c18ReaderErr(c.ErrKind) {
+		// a reader failing inside a packet with an error that IS or WRAPS an end-of-stream sentinel fits both clauses
+		// ("the stream ends in a partial packet" and "the reader fails"): either error is accepted there
+		eofLike := c.ErrKind >= 4 && c.ReadFail%188 != 0 && errors.Is(rerr, gots.ErrInvalidPacketLength)
+		if !errors.Is(rerr, c18ReaderErr(c.ErrKind)) && !eofLike {
 			return hx.Failf("readfrom-reader-error", "reader failed after %d bytes but ReadFrom returned error %v", c.ReadFail, rerr)
 		}
 		if rn != int64(188*complete) {
 			return hx.Failf("readfrom-count", "ReadFrom returned %d bytes, %d complete packets were delivered", rn, complete)
 		}
 	case avail%188 != 0:
-		if rerr != gots.ErrInvalidPacketLength {
+		if !errors.Is(rerr, gots.ErrInvalidPacketLength) {
 			return hx.Failf("readfrom-partial", "stream ends in a partial packet (%d bytes) but ReadFrom returned error %v", avail%188, rerr)
 		}
 		if rn != int64(188*complete) {
